@@ -316,10 +316,13 @@ async fn life(out: &mut Out, rng: &mut Rng, cfg: &ACfg, g: &AGenOpts) {
     out.line(&format!("c.clock {}", start));
     let mut s = AStepper { c, cb, cfg: cfg.clone(), coster: TableCoster(cfg.coster), out, now: start, next_val: 1, next_id: 1, closed: false };
     let universe = rng.range(2, 10);
+    // the key range starts at a different index hash in different lives: striped structures (the
+    // metrics counters live in 25 stripes picked by `hash % 25`) must be exercised on every stripe
+    let base = *rng.pick(&[0u64, 0, 20, 23, 45, 70]);
     let item = if cfg.ignore_internal { 0 } else { verif::async_cache_item_size(&s.c) as i64 };
     let unit = (cfg.max_cost / 6).max(1);
     for _ in 0..g.ops {
-        let idx = rng.below(universe);
+        let idx = base + rng.below(universe);
         let conf = if g.collisions { rng.range(1, 2) } else { 0 };
         let r = rng.below(100);
         if r < 30 {
